@@ -167,6 +167,20 @@ example : listener { refuseANY := true, whoamiDomain := "w.ex.com".toList } (fun
     .reply { id := 9, response := true, opcode := 0, rd := true, cd := false, rcode := 1 } := by
   decide
 
+/-- The guard is reachable from the network: a packet whose header says QDCOUNT = 1 but that ends
+after the header passes the accept filter, unpacks as a message without question (miekg returns
+"just the header") and is answered SERVFAIL by the guard. -/
+theorem listener_header_only (cfg : Cfg) (who : Query → Outcome) (h : Hdr) (q : Query)
+    (db : MaxAns → Query → Outcome) (ha : msgAccept h = .accept) (hq : q.questions = []) :
+    listener cfg who h (some q) db = .reply { setReply q with rcode := rcodeServerFailure } := by
+  rw [listener_accepts cfg who h q db ha]
+  exact (no_question_failure cfg who q db hq).1
+
+example : listener { refuseANY := true, whoamiDomain := "w.ex.com".toList } (fun _ => .panic)
+    { id := 9, qdcount := 1, rd := true } (some { id := 9, rd := true }) (fun _ _ => .panic) =
+    .reply { id := 9, response := true, opcode := 0, rd := true, cd := false, rcode := 2 } := by
+  decide
+
 /-! ### whoami -/
 
 /-- the match rule: same byte length and equal after lower-casing the query name -/
